@@ -371,6 +371,34 @@ def const_tuple(facts, c):
     return None
 
 
+def const_variant(facts, c):
+    """(type name, variant index) of a constant operand that denotes a payload-free enum variant — a promoted `&Enum::V`, a named
+    constant — else None."""
+    if not isinstance(c, dict) or 'uneval' not in c:
+        return None
+    from .sym import SymEx, State
+    sx = SymEx(facts)
+    st = State()
+    try:
+        if 'promoted' in c:
+            v = sx.promoted(st, c)
+        else:
+            cb = getattr(facts, 'consts', {}).get(facts.norm(c['uneval']))
+            if cb is None:
+                return None
+            outs = sx.run(cb, [], st=st)
+            v = outs[0].ret if len(outs) == 1 else None
+        for _ in range(3):
+            if isinstance(v, tuple) and v[0] == 'ref':
+                v = sx.load(st, v)
+        v = sx.deep(st, v) if v is not None else None
+    except Exception:      # noqa: BLE001
+        return None
+    if isinstance(v, tuple) and v[0] == 'struct' and v[2] is not None and not v[3]:
+        return (v[1], v[2][1])
+    return None
+
+
 def const_int(facts, c):
     """Integer denoted by a constant operand: a literal, a named constant, or a promoted `&K`."""
     if not isinstance(c, dict):
